@@ -52,18 +52,18 @@ def main():
             ny = len(set(c['y']))
             if c['y'] != c['x'] and 1 < ny < n:
                 nontriv += 1
-            if abs(s - e) > MC.tol(e, hy):
+            if not (abs(s - e) <= MC.tol(e, hy)):
                 V.violation('corrected:' + key, f'score {s!r} != H(Y*|X)-H(Y|X) = {e!r}', c)
-            if c['y'] != c['x'] and ny == 1 and abs(s) > MC.tol(0, 1):
+            if c['y'] != c['x'] and ny == 1 and not (abs(s) <= MC.tol(0, 1)):
                 V.violation('constant-feature:' + key, f'constant feature scores {s!r}', c)
-            if c['y'] != c['x'] and ny == n and abs(s) > MC.tol(0, hy):
+            if c['y'] != c['x'] and ny == n and not (abs(s) <= MC.tol(0, hy)):
                 V.violation('identifier-feature:' + key, f'all-distinct feature scores {s!r}', c)
-            if c['y'] == c['x'] and abs(s - hy) > MC.tol(hy, hy):
+            if c['y'] == c['x'] and not (abs(s - hy) <= MC.tol(hy, hy)):
                 V.violation('self:' + key, f'self score {s!r} != entropy {hy!r}', c)
         for i, s in zip(sub, got_name):
             c = cases[i]
             e = O.vec_value(c['vec'], len(c['y']))
-            if s is None or abs(s - e) > MC.tol(e, O.entropy(c['y'])):
+            if s is None or not (abs(s - e) <= MC.tol(e, O.entropy(c['y']))):
                 V.violation(f'heuristic-name:{label}:Y={c["y"]} X={c["x"]}', f'numba_mi(..., "MI-numba-randomized") = {s!r}, corrected score is {e!r}', c)
         V.count(evaluations=len(cases) + len(sub), nontrivial=nontriv, traces=len(cases) + len(sub) - len(crashes))
         k = next(i for i, c in enumerate(cases) if c['y'] != c['x'] and 1 < len(set(c['y'])) < len(c['y']) and any(c['vec'].values()))
@@ -82,7 +82,7 @@ def main():
     got, crashes = MC.real_eval('score', [[y, x, 1.0, True] for _, _, y, x in big], stride=True)
     for (nm, n, y, x), s in zip(big, got):
         e = O.value(O.spec_score(y, x, True), n)
-        if s is None or abs(s - e) > MC.tol(e, O.entropy(y)):
+        if s is None or not (abs(s - e) <= MC.tol(e, O.entropy(y))):
             V.violation(f'large:{nm}:n={n}', f'score {s!r} != specified {e!r}', {'family': nm, 'n': n, 'seed': seed})
     V.count(evaluations=len(big), nontrivial=len(big) - 2, traces=len(big))
 
